@@ -808,10 +808,19 @@ func (g *generator) next() Op {
 			}
 			r := g.rng.Intn(g.p.NRes)
 			has := g.x.w.Resources().Has(g.x.resIDs[r])
-			if (has && !faulty) || (!has && faulty) {
-				return Op{Op: "ResRemove", R: r}
+			if g.pct(40) {
+				apis := []string{"Resources.Get", "generic.Resource.Get", "ecs.GetResource", "Resources.Has", "generic.Resource.Has"}
+				return Op{Op: "ResGet", Api: apis[g.rng.Intn(len(apis))], R: r}
 			}
-			return Op{Op: "ResAdd", R: r}
+			if (has && !faulty) || (!has && faulty) {
+				api := "Resources.Remove"
+				if g.pct(50) {
+					api = "generic.Resource.Remove"
+				}
+				return Op{Op: "ResRemove", Api: api, R: r}
+			}
+			apis := []string{"Resources.Add", "generic.Resource.Add", "ecs.AddResource"}
+			return Op{Op: "ResAdd", Api: apis[g.rng.Intn(len(apis))], R: r}
 		}
 	}
 	return Op{Op: "Panel", F: &FSpec{K: "all", Tgt: -1}}
